@@ -15,7 +15,10 @@ import (
 
 // ---- C10: reverse URL building ----
 
-var c10Values = []string{"", "1", "12", "a", "abc5", "5abc", "1/b", "é", "\xff", "{x}"}
+var c10Values = []string{"", "1", "12", "a", "abc5", "5abc", "1/b", "100%", "é", "\xff", "{x}", "%d%s"} // '%': values are text, never a format
+
+// c10Extra: names that start with more than one '-' (one is the flag, the rest is the name) and literal text with '%'
+var c10Extra = []string{"/a/{--x}/b", "/a/{x}/{--x}", "/p/{--x:digit}/c", "/q/{x}%7C{y}", "/q/{x}%d"}
 
 // one malformed pattern per documented error class and per combination of parameter kinds
 var c10Malformed = func() []string {
@@ -123,7 +126,7 @@ func c10Job(raw json.RawMessage) (any, error) {
 		}
 	}
 	if len(names) >= 2 {
-		vals = append(append([]string{}, vals[:7]...), vals[len(c10Values):]...)
+		vals = append(append([]string{}, vals[:8]...), vals[len(c10Values):]...)
 	}
 	if len(names) >= 3 {
 		vals = vals[:4]
@@ -204,6 +207,7 @@ func c10Job(raw json.RawMessage) (any, error) {
 	}
 	routers = append(routers, rt{"empty-router", mk(""), false})
 	domRouter := mk("https://h")
+	domRouter2 := mk("file:///") // exactly one trailing slash is dropped from the configured domain
 
 	// without parameters the facades are still shorthand: whatever Router.URL answers for the concatenated pattern
 	// (with the URL domain in front), Prefix.URL and Resource.URL answer the same
@@ -259,7 +263,7 @@ func c10Job(raw json.RawMessage) (any, error) {
 			for _, d := range []struct {
 				name, dom string
 				r         *Router
-			}{{"Router.URL(false)", "", routers[len(routers)-1].r}, {"Router.URL(false)+domain", "https://h", domRouter}} {
+			}{{"Router.URL(false)", "", routers[len(routers)-1].r}, {"Router.URL(false)+domain", "https://h", domRouter}, {"Router.URL(false)+domain(file:///)", "file://", domRouter2}} {
 				wantD := want
 				if want != "error" {
 					wantD = fmt.Sprintf("%q", d.dom+strings.Trim(want, `"`))
@@ -486,13 +490,14 @@ func init() {
 	explore.Register(&explore.Check{ID: "C10", Run: func(rc *explore.RunCtx) {
 		rc.Assume = append(rc.Assume,
 			"patterns: the dispatch pool under I0/I1/I2 plus one malformed pattern per documented error class (empty name, adjacent parameters, duplicate names incl. '-' variants, uncompilable regexp)",
-			"params: every map over the pattern's names plus one extra key, each key absent or bound to one of {\"\", 1, 12, a, abc5, 5abc, 1/b, é, 0xff, {x}} (value set shrinks with 2+ names)",
+			"params: every map over the pattern's names plus one extra key, each key absent or bound to one of {\"\", 1, 12, a, abc5, 5abc, 1/b, 100%, é, 0xff, {x}, %d%s} (value set shrinks with 2+ names); extra patterns with names starting with two '-' and literal text containing '%'; a URL domain with several trailing slashes (file:///)",
 			"entry points: mux.URL, Router.URL strict/non-strict with WithURLDomain \"\"/https://h/https://h/, Prefix.URL at three cut positions, Resource.URL; strict mode on routers where the pattern is live, removed again, only a structural prefix, or absent",
 			"round trip: every (path, route, params) triple produced by dispatching the C01 probe set on all tables of <=2 patterns is fed back through URL (strict and not) for routes without '-' parameters")
 		var items []c10Item
 		for _, icn := range []string{"", "I1", "I2"} {
 			pool := append([]string{}, poolD(icn, rc.Tier)...)
 			pool = append(pool, c10Malformed...)
+			pool = append(pool, c10Extra...)
 			for _, p := range pool {
 				items = append(items, c10Item{IC: icn, Pattern: p})
 			}
